@@ -210,8 +210,8 @@ func frameNaturalResult(evs []Ev, f *Frame) (ret []byte, errText string, gasLeft
 func checkC05(sc *Scenario, st *Stats) *Violation {
 	an, bad := analyseJP(sc, ArtelaOpts{})
 	if bad != "" {
-		st.Exclude("panic-or-unbalanced(C03/C18)")
-		return nil
+		// no frame analysis is possible: the VM panicked or its event stream is not well nested
+		return violf("panic-or-unbalanced", "%.1500s", bad)
 	}
 	evs := an.art.Rec.Evs
 	nested, special, prefail := 0, false, false
@@ -439,8 +439,8 @@ func checkC06(sc *Scenario, st *Stats) *Violation { return c06Laws(sc, st, true)
 func c06Laws(sc *Scenario, st *Stats, sweep bool) *Violation {
 	an, bad := analyseJP(sc, ArtelaOpts{})
 	if bad != "" {
-		st.Exclude("panic-or-unbalanced(C03/C18)")
-		return nil
+		// no frame analysis is possible: the VM panicked or its event stream is not well nested
+		return violf("panic-or-unbalanced", "%.1500s", bad)
 	}
 	evs := an.art.Rec.Evs
 	ct := an.art.EVM.Tracer().CallTree()
